@@ -821,7 +821,14 @@ impl<'a, T: Iterator<Item = PathEl>> DashIterator<'a, T> {
         } else {
             if self.is_active {
                 let seg = self.current_seg.subsegment(self.t..1.0);
-                result = Some(seg_to_el(&seg));
+                let el = seg_to_el(&seg);
+                if self.state == DashState::ToStash {
+                    // `get_input` appends `ClosePath` to the stash when the subpath ends
+                    // here without a dash break; this segment goes before that.
+                    self.stash.push(el);
+                } else {
+                    result = Some(el);
+                }
             }
             self.dash_remaining -= self.seg_remaining;
             self.get_input();
